@@ -56,6 +56,18 @@ CLAIMED = {
              "the floating-point tails are shown identical, term for term, to the standard's formula applied to the same exact integer; the wavelength table for all four constellations and all 2^64 signal ids.",
         note="'to within floating-point rounding' and the %.3f rendering are argued from the exactness of the integer (< 2^41), not solver-checked; FP obligations are decided by syntactic identity or refuted by evaluation under solver models.",
         ref="DESIGN.md section 6, C08"),
+    "C09": dict(
+        text="The real reader-to-sinks pipeline (file handler goroutine, framing goroutine, fan-out loop) runs under the engine's scheduler with a fast, a nil and a slow consumer, three channel-capacity settings and three input chunkings, on four input shapes with symbolic contents: under the lazy, the round-robin and every one-preemption schedule each consumer receives exactly the sequence sequential framing of the same bytes produces, the call returns 0, all helper goroutines finish, nothing is closed twice or sent on a closed channel, nothing deadlocks.",
+        note="interleavings at synchronisation granularity under sequential consistency: data races are outside the claim; schedules with more than one preemption are outside the bound.",
+        ref="DESIGN.md sections 5 and 6, C09", technique="bounded symbolic execution of the real Go code (go/ssa interpreter with symbolic data, encoding regenerated from /repo on every run) extended with a cooperative scheduler: goroutine interleavings are explicit choice points explored under a stated preemption bound, data stays symbolic and every equality is an SMT obligation (z3 5.1.0); counterexamples replayed natively with a slow writer"),
+    "C10": dict(
+        text="writeRTCMMessages alone, over symbolic messages and a writer that may fail at any call, writes exactly the raw bytes of the typed messages in order up to the failure; the composed rtcmfilter.HandleMessages (real file handler, framing, fan-out and writer goroutines; display and record on and off; inputs with junk, a CRC-damaged frame and a truncated frame, symbolic contents) leaves exactly the valid frames on the output writer and in the record log, and the display log holds exactly one rendered entry per delivered message, under the lazy, round-robin and one-preemption schedules.",
+        note="the daily logger is a recording stub in the engine (natively the real logger in a scratch directory); that the delivered messages are the valid frames is C01/C03/C12.",
+        ref="DESIGN.md section 6, C10", technique="bounded symbolic execution of the real Go code (go/ssa interpreter with symbolic data, encoding regenerated from /repo on every run) extended with a cooperative scheduler: goroutine interleavings are explicit choice points explored under a stated preemption bound, data stays symbolic and every equality is an SMT obligation (z3 5.1.0); counterexamples replayed natively with a slow writer"),
+    "C11": dict(
+        text="displayrtcm3.HandleMessages and rtcmfilter.HandleMessages run with their real goroutines and a slow writer under the lazy, round-robin and every one-preemption schedule: at the instant the function returns the writer holds every byte and every Write it holds once all goroutines have come to rest.",
+        note="found and natively confirmed the lost-tail defect on the original tree (fixed by 54f882a); as C09 for the schedule bound.",
+        ref="DESIGN.md sections 5 and 6, C11", technique="bounded symbolic execution of the real Go code (go/ssa interpreter with symbolic data, encoding regenerated from /repo on every run) extended with a cooperative scheduler: goroutine interleavings are explicit choice points explored under a stated preemption bound, data stays symbolic and every equality is an SMT obligation (z3 5.1.0); counterexamples replayed natively with a slow writer"),
     "C12": dict(
         text="C03's segment family with one victim frame whose payload+CRC bytes are XOR-ed with a symbolic difference assumed (through the exact CRC model) to break the CRC: "
              "the victim is delivered as one non-RTCM message with exactly its bytes and every other segment exactly as before.",
